@@ -276,9 +276,51 @@ def lower_spawned_loop(path):
     new_fn = ("\n    /// generated by kani/overlay.py from the text of `new` (see lower_spawned_loop)\n"
               "    pub fn verif_new(%s) -> StoreResult<(Self, impl FnMut())> {%s let __task = move || { #[allow(unused_imports)] use ::tokio::{VNow as _, VNowOrNone as _}; %s };%s    }\n"
               % (m.group(1), body[:sm.start()], task, rest2))
-    s = s[:j + 1] + new_fn + s[j + 1:]
+    # state-passing variant (one-step harnesses from an arbitrary parked-waiter state): the `let mut obligations = <init>;`
+    # statement of the prefix is lifted out - the closure takes the waiter table as `&mut` argument and the initial table is
+    # returned to the harness, which owns it between runs of the task (and can inspect or pre-fill it). BODY' is the same text.
+    OBT = "HashMap<Key, VecDeque<oneshot::Sender<StoreResult<Value>>>>"
+    prefix = body[:sm.start()]
+    om2 = re.search(r"let\s+mut\s+obligations\s*=\s*([^;]*);", prefix)
+    lowered = ["Store::new -> verif_new (spawned command loop as a closure)"]
+    st_fn = ""
+    if om2:
+        prefix2 = prefix[:om2.start()] + prefix[om2.end():]
+        rest3 = rest[:om.start()] + "Ok((%s, __task, __obl0))\n" % om.group(1)
+        st_fn = ("\n    /// generated by kani/overlay.py from the text of `new` (state-passing variant, see lower_spawned_loop)\n"
+                 "    pub fn verif_new_st(%s) -> StoreResult<(Self, impl FnMut(&mut %s), %s)> {%s let __obl0: %s = %s; let __task = move |obligations: &mut %s| { #[allow(unused_imports)] use ::tokio::{VNow as _, VNowOrNone as _}; %s };%s    }\n"
+                 % (m.group(1), OBT, OBT, prefix2, OBT, om2.group(1), OBT, task, rest3))
+        lowered.append("Store::new -> verif_new_st (same loop, waiter table owned by the harness between runs)")
+    s = s[:j + 1] + new_fn + st_fn + s[j + 1:]
     open(path, "w").write(s)
-    return ["Store::new -> verif_new (spawned command loop as a closure)"]
+    return lowered
+
+
+def lower_trait_dispatch(path, impl_for):
+    """`#[async_trait] impl MessageHandler for X { async fn dispatch(&self, writer: &mut Writer, serialized: Bytes) -> R { BODY } }`
+    gets a sibling inherent method, generated from the current text of `dispatch` on every run,
+           impl X { pub fn verif_dispatch(&self, writer: &mut Writer, serialized: Bytes) -> R { BODY' } }
+    where BODY' is BODY with `.await` replaced by `.vnow()` (poll once; Pending is a hard error). The async_trait original boxes
+    its coroutine (`Pin<Box<dyn Future>>`), which did not finish symbolic execution (12 GB at 800 s); statements, order and
+    every call of the real handler are unchanged."""
+    s = open(path).read()
+    m = re.search(r"impl\s+MessageHandler\s+for\s+%s\s*\{" % re.escape(impl_for), s)
+    if not m:
+        raise SystemExit("lower_trait_dispatch: impl MessageHandler for %s not found" % impl_for)
+    ie = _match_brace(s, m.end() - 1)
+    blk = s[m.end():ie]
+    fm = re.search(r"async\s+fn\s+dispatch\s*\(([^)]*)\)\s*->\s*([^{]*)\{", blk)
+    if not fm:
+        raise SystemExit("lower_trait_dispatch: async fn dispatch not found")
+    bi = m.end() + fm.end() - 1
+    bj = _match_brace(s, bi)
+    body = s[bi + 1:bj].replace(".await", ".vnow()")
+    new = ("\n/// generated by kani/overlay.py from the text of `dispatch` (see lower_trait_dispatch)\n"
+           "impl %s {\n    pub fn verif_dispatch(%s) -> %s {\n        #[allow(unused_imports)] use ::tokio::VNow as _;\n%s\n    }\n}\n"
+           % (impl_for, fm.group(1), fm.group(2).strip(), body))
+    s = s[:ie + 1] + new + s[ie + 1:]
+    open(path, "w").write(s)
+    return ["%s::dispatch -> verif_dispatch (async_trait method as a plain fn)" % impl_for]
 
 
 def lower_spawn_fn(path, struct_hint=""):
@@ -411,6 +453,9 @@ def main():
         pp = os.path.join(out, "mempool/src/processor.rs")
         if os.path.exists(pp):
             report["deasync"]["mempool/src/processor.rs"] = {"lowered": lower_spawn_fn(pp), "kept_async": []}
+        mp = os.path.join(out, "mempool/src/mempool.rs")
+        if os.path.exists(mp):
+            report["deasync"]["mempool/src/mempool.rs"] = {"lowered": lower_trait_dispatch(mp, "MempoolReceiverHandler"), "kept_async": []}
     if a.profile == "S":
         sp = os.path.join(out, "store/src/lib.rs")
         low = lower_spawned_loop(sp)
